@@ -129,6 +129,32 @@ def cases() -> List[Dict[str, Any]]:
         "pkg/sub.py": "from . import util\nclass X:\n    pass\n",
         "pkg/util.py": "def helper(): pass\n",
     }, ["other.py", "pkg"], cyclic=True))
+    # a star import through a module that only FORWARDS names (binds them by imports, one under a second name), while a sibling
+    # re-exports the classes: the bases of the user's classes, and whether one is an exception, in every order of the four roots
+    out.append(hw("star-import-through-a-forwarding-module", {
+        "core.py": "'Core.'\nclass C:\n    'The class.'\n    def meth(self):\n        'A method.'\nclass Boom(Exception):\n    'An error.'\n",
+        "compat.py": "'Compatibility names.'\nfrom core import C, Boom\nfrom core import C as Base\n",
+        "api.py": "'Public names.'\nfrom core import C, Boom\n__all__ = ['C', 'Boom']\n",
+        "user.py": "'User code.'\nfrom compat import *\nclass D(C):\n    'By the name C.'\nclass E(Base):\n    'By the name Base.'\nclass MyBoom(Boom):\n    'An error.'\n",
+    }, ["core.py", "compat.py", "api.py", "user.py"]))
+    # an import cycle between the module of a base class and the module of its subclass (which names the base through the module),
+    # both classes re-exported by another root: the base of the subclass whatever root and module comes first
+    for shapes in ("aa_shapes", "shapes"):
+        out.append(hw("cycle-then-both-reexported-" + shapes, {
+            "pkg/__init__.py": "",
+            "pkg/base.py": f"'Base.'\nfrom . import {shapes}\nclass A:\n    'A.'\n    def area(self):\n        'The area.'\n",
+            f"pkg/{shapes}.py": "'Shapes.'\nfrom . import base\nclass B(base.A):\n    'B.'\n    def area(self):\n        return 1\n",
+            "api/__init__.py": f"'Api.'\nfrom pkg.base import A\nfrom pkg.{shapes} import B\n__all__ = ['A', 'B']\n",
+        }, ["pkg", "api"], cyclic=True))
+    # a sub-package re-exported as a whole BEFORE its modules are analysed; they import each other by the original absolute name
+    for helpers in ("a_helpers", "z_helpers"):
+        out.append(hw("moved-subpackage-whose-modules-name-the-old-location-" + helpers, {
+            "api/__init__.py": "'Api.'\nfrom impl import sub\n__all__ = ['sub']\n",
+            "impl/__init__.py": "",
+            "impl/sub/__init__.py": "",
+            f"impl/sub/{helpers}.py": "from zope.interface import Interface\nclass IBase(Interface):\n    'doc'\nclass Base:\n    def go(self):\n        'doc'\ndef traced(f): return f\n",
+            "impl/sub/mine.py": f"from impl.sub.{helpers} import IBase, Base, traced\nclass IMine(IBase):\n    'doc'\nclass Mine(Base):\n    go = traced(Base.go)\n",
+        }, ["api", "impl"]))
     # a pipeline of modules without any cycle, longer than any depth a cautious implementation might stop following imports at:
     # each stage derives from the next one's class and publishes the next one's helper
     for n in (30, 60):
